@@ -6,7 +6,7 @@
 # On success copies patch.diff, demo.diff, meta.json (+ confirm log) to /verif/seeded/<name>/.
 set -u
 id=$1; name=${2:-$1}
-src=/tmp/mut/$id/out
+src=${3:-/tmp/mut}/$id/out
 wt=/tmp/confirm/$name/repo
 export CARGO_TARGET_DIR=/tmp/confirm/target CARGO_NET_OFFLINE=true CARGO_PROFILE_DEV_DEBUG=0 CARGO_PROFILE_TEST_DEBUG=0
 mkdir -p /tmp/confirm/$name
